@@ -77,11 +77,9 @@ fn match_leaf_meta_var<'tree, D: Doc>(
         Some(())
       }
     }
-    // Ellipsis will be matched in parent level
-    MV::Multiple => {
-      debug_assert!(false, "Ellipsis should be matched in parent level");
-      Some(())
-    }
+    // Ellipsis among siblings is matched in parent level.
+    // Only a pattern that is nothing but `$$$` gets here: it matches the node itself, like `$$$A` below.
+    MV::Multiple => Some(()),
     MV::MultiCapture(name) => {
       env.to_mut().insert(name, candidate.clone())?;
       Some(())
